@@ -18,6 +18,8 @@ What is read off the source (fail closed: anything outside the whitelisted shape
       - visit_if: the parent kinds at which a TYPE_CHECKING test guards (`isinstance(node.parent, (ast.Module,
         ast.ClassDef))`) and the accepted test texts;
       - handle_function: the method name whose body is visited for instance attributes (`function.name == "__init__"`).
+  * extensions/base.py: class Extensions has exactly __init__ / add / call with the shapes of Model/C01_ext.v (a list, append,
+    dispatch to every extension registered at that moment in registration order).
   * agents/nodes/ast.py: `ast_kind` (lower-cased class name) and `ast_children` (fields in `_fields` order; shape checks).
   * agents/nodes/assignments.py: the node types `get_name` accepts (`_node_name_map` keys, with the shapes of the two
     name builders), the node types `get_names` accepts (`_node_names_map`), and `get_instance_names` (prefix "self.",
@@ -112,6 +114,37 @@ def visit_expr(self, node):
             )
     self.generic_visit(node)
 ''',
+    "Extensions.__init__": '''
+def __init__(self, *extensions):
+    self._extensions: list[Extension] = []
+    self.add(*extensions)
+''',
+    "Extensions.add": '''
+def add(self, *extensions):
+    for extension in extensions:
+        self._extensions.append(extension)
+''',
+    "Extensions.call": '''
+def call(self, event, **kwargs):
+    for extension in self._extensions:
+        getattr(extension, event)(**kwargs)
+''',
+    "visit_if": '''
+def visit_if(self, node):
+    previously_guarded = self.type_guarded
+    else_guarded = previously_guarded
+    if isinstance(node.parent, (ast.Module, ast.ClassDef)):
+        condition = safe_get_condition(node.test, parent=self.current, log_level=None)
+        if str(condition) in {"typing.TYPE_CHECKING", "TYPE_CHECKING"}:
+            self.type_guarded = True
+        elif str(condition) in {"not typing.TYPE_CHECKING", "not TYPE_CHECKING"}:
+            else_guarded = True
+    for child in ast_children(node):
+        if child in node.orelse:
+            self.type_guarded = else_guarded
+        self.visit(child)
+    self.type_guarded = previously_guarded
+''',
     "visit_functiondef": '''
 def visit_functiondef(self, node):
     self.handle_function(node)
@@ -152,6 +185,20 @@ def _same_shape(fn, ref_name, what):
     ref = ast.parse(_REF[ref_name]).body[0]
     if _norm_fn(fn) != _norm_fn(ref):
         raise TranslatorError(f"{what} no longer has the shape the model assumes:\n{ast.unparse(fn)[:400]}")
+
+
+class _BlankSets(ast.NodeTransformer):
+    def visit_Set(self, n):
+        return ast.Set(elts=[]) if all(isinstance(e, ast.Constant) and isinstance(e.value, str) for e in n.elts) else n
+
+
+def _same_shape_modulo_sets(fn, ref_name, what):
+    """Exact shape, except for the contents of sets of string literals (those are extracted into the generated tables)."""
+    import copy
+    ref = ast.parse(_REF[ref_name]).body[0]
+    a, b = (_BlankSets().visit(copy.deepcopy(x)) for x in (fn, ref))
+    if _norm_fn(ast.fix_missing_locations(a)) != _norm_fn(ast.fix_missing_locations(b)):
+        raise TranslatorError(f"{what} no longer has the shape the model assumes:\n{ast.unparse(fn)[:600]}")
 
 
 def _functions(tree):
@@ -266,16 +313,17 @@ def tables() -> dict:
     cond_kinds = _isinstance_parent_kinds(meths["handle_attribute"], "handle_attribute (conditional re-assignment)")
     if "visit_if" in meths:
         guard_kinds = _isinstance_parent_kinds(meths["visit_if"], "visit_if (type-guard level)")
+        _same_shape_modulo_sets(meths["visit_if"], "visit_if", "Visitor.visit_if")
         tests = []
         for n in ast.walk(meths["visit_if"]):
             if isinstance(n, ast.Compare) and len(n.ops) == 1 and isinstance(n.ops[0], ast.In) and ast.unparse(n.left) == "str(condition)" \
                     and isinstance(n.comparators[0], ast.Set) and all(isinstance(e, ast.Constant) and isinstance(e.value, str) for e in n.comparators[0].elts):
                 tests.append(sorted(e.value for e in n.comparators[0].elts))
-        if len(tests) != 1:
-            raise TranslatorError("visit_if: expected exactly one `str(condition) in {<string literals>}` test")
-        tests = tests[0]
+        if len(tests) != 2:
+            raise TranslatorError("visit_if: expected the two `str(condition) in {<string literals>}` tests (plain, then negated)")
+        tests, neg_tests = tests
     else:
-        guard_kinds, tests = [], []
+        guard_kinds, tests, neg_tests = [], [], []
     inits = []
     for n in ast.walk(meths["handle_function"]):
         if isinstance(n, ast.Compare) and len(n.ops) == 1 and isinstance(n.ops[0], ast.Eq) and ast.unparse(n.left) == "function.name" \
@@ -307,7 +355,18 @@ def tables() -> dict:
     for cls_, fn_ in names_map:
         if takers.get(fn_) != cls_:
             raise TranslatorError(f"_node_names_map[{cls_}] = {fn_}: not the pairing the model assumes")
-    return {"handlers": handlers, "missing": missing, "cond_kinds": cond_kinds, "guard_kinds": guard_kinds, "tests": tests,
+    # the extension container (Model/C01_ext.v): a plain list, `add` appends, `call` hands the event to every extension
+    # registered at that moment, in registration order (no per-event tables, no snapshots)
+    ext = ast.parse((REPO / "src/_griffe/extensions/base.py").read_text())
+    ecls = [n for n in ext.body if isinstance(n, ast.ClassDef) and n.name == "Extensions"]
+    if len(ecls) != 1:
+        raise TranslatorError("extensions/base.py: class Extensions not found")
+    em = {n.name: n for n in ecls[0].body if isinstance(n, ast.FunctionDef)}
+    if sorted(em) != ["__init__", "add", "call"]:
+        raise TranslatorError(f"Extensions: methods {sorted(em)} (the model knows __init__, add, call)")
+    for mname_ in ("__init__", "add", "call"):
+        _same_shape(em[mname_], "Extensions." + mname_, "Extensions." + mname_)
+    return {"handlers": handlers, "missing": missing, "cond_kinds": cond_kinds, "guard_kinds": guard_kinds, "tests": tests, "neg_tests": neg_tests,
             "init_name": inits[0], "all_call": all_call, "name_map": [(c, builders[f]) for c, f in name_map], "names_kinds": [c for c, _f in names_map]}
 
 
@@ -328,6 +387,8 @@ def translate(ctx=None) -> Path:
            "(* visit_if: isinstance(node.parent, ...) and the texts of a type-checking test *)",
            f"Definition guard_parent_kinds : list string := {lst(t['guard_kinds'])}.",
            f"Definition type_checking_tests : list string := {lst(t['tests'])}.",
+           "(* ... and of its negation (then the else branch is the type-checking-only one) *)",
+           f"Definition negated_type_checking_tests : list string := {lst(t['neg_tests'])}.",
            "(* visit_expr: <receiver>.<method>(<argument>, ...) as an expression statement extends the exports of a module *)",
            f"Definition all_receiver : string := {_coq_str(t['all_call']['receiver'])}.",
            f"Definition all_methods : list string := {lst(t['all_call']['methods'])}.",
